@@ -82,3 +82,22 @@ Theorem C10_msgpack_int_minimal :
     (List.length (mp_write_int z) <= List.length b)%nat.
 Proof. exact mp_write_int_minimal. Qed.
 Print Assumptions C10_msgpack_str_roundtrip.
+
+(* the newtype level for MessagePack, as for JSON: the written document is the inner value's own
+   document, and the abstract round trip holds with its format hypothesis discharged (String
+   newtypes whose UTF-8 form is shorter than 2^32 bytes, integer newtypes of at most 64 bits) *)
+Theorem C10_msgpack_transparent :
+  forall (d : decl) (v : value), serialize (list N) mp_ser_inner mp_wrap d v = mp_ser_inner v.
+Proof. exact mp_serialize_transparent. Qed.
+Print Assumptions C10_msgpack_transparent.
+
+Theorem C10_msgpack_roundtrip :
+  forall (lib : fnlib) (d : decl) (raw v : value),
+    has_trait TrDeserialize (d_traits d) = true ->
+    idempotent_on lib d -> comparable d (spec_sanitize lib d raw) = true ->
+    construct lib d raw = OOk v ->
+    mp_storable (d_family d) v = true ->
+    deserialize lib (list N) (mp_de_inner (d_family d)) mp_unwrap d
+      (serialize (list N) mp_ser_inner mp_wrap d v) = OOk v.
+Proof. exact mp_roundtrip. Qed.
+Print Assumptions C10_msgpack_roundtrip.
